@@ -1,8 +1,25 @@
-(* C19: editing a CIF document through the DOM API keeps it rectangular and predictable. *)
+(* C19: editing a CIF document through the DOM API keeps it rectangular and predictable.
+   Statements over the reference model coq/Dom/Dom.v (tied to gemmi by harness/h_dom.cpp + extract/dom_drv.ml). *)
 From Coq Require Import ZArith List Bool.
 From GV Require Import Base.Str Dom.Dom Dom.DomProofs.
 Import ListNotations.
 
-Theorem C19_set_nth_length : forall A (l : list A) n x, length (set_nth n x l) = length l.
-Proof. exact set_nth_length. Qed.
-Print Assumptions C19_set_nth_length.
+(* Every operation -- accepted, rejected with an exception, with any arguments -- keeps every loop of
+   every block rectangular: length values = k * length tags (so no values without tags). *)
+Theorem C19_rectangular_step : forall d o, Rect d -> Rect (s_doc (step d o)).
+Proof. exact step_rect. Qed.
+Print Assumptions C19_rectangular_step.
+
+(* ... hence every history, of ANY length, from any rectangular document *)
+Theorem C19_rectangular : forall ops d, Rect d -> Rect (run d ops).
+Proof. exact run_rect. Qed.
+Print Assumptions C19_rectangular.
+
+Theorem C19_rectangular_fold : forall ops d, Rect d ->
+  Rect (fold_left (fun d o => s_doc (step d o)) ops d).
+Proof. exact fold_rect. Qed.
+Print Assumptions C19_rectangular_fold.
+
+Theorem C19_rectangular_from_empty : forall ops, Rect (run [] ops).
+Proof. intro ops. apply run_rect. exact rect_empty_doc. Qed.
+Print Assumptions C19_rectangular_from_empty.
